@@ -14,6 +14,7 @@ Non-idempotent cases carrying the verified signature of finding #16 are the know
 `aligner:source-line-gap-grouping`; anything else is a violation.
 """
 import glob
+import re
 import os
 
 import gen
@@ -23,16 +24,55 @@ LEVEL = "proof"
 THEOREMS = ["merge_comm", "merge_assoc", "addMerge_comm", "no_underflow", "group_paddings", "align_stable",
             "align_stable_lookup", "reduction", "format_eq_of_same_class", "C08_second_pass_fixed_partial",
             "C08_align_witness", "align_position_independent_false"]
-KEY = "aligner:source-line-gap-grouping"
-SIG = "nonidem sp=1 fix=1 cyc=0 docs=1 shape=1 tie=1"
-# same cause, visible consequence one step further: the changed paddings make a group fit / not fit, so pass 2
-# also moves line breaks (all other signature bits hold, and M-Pretty reproduces both outputs from the two Docs)
-KEY2 = "aligner:source-line-gap-grouping:padding-changes-line-breaks"
-SIG2 = "nonidem sp=0 fix=1 cyc=0 docs=1 shape=1 tie=1"
-# … and, at narrow widths, two layouts that feed each other: pass 3 = pass 1 ≠ pass 2, no fixed point at all
-KEY3 = "aligner:source-line-gap-grouping:oscillation"
-SIG3 = "nonidem sp=0 fix=0 cyc=1 docs=1 shape=1 tie=1"
-KEYS = {SIG: KEY, SIG2: KEY2, SIG3: KEY3}
+# The verified-signature family of finding #16 (one root cause: `Align::finish_item` cuts groups by SOURCE line
+# gaps, so the paddings depend on where the tokens stood). Common, verified per case by the harness and the models:
+# the Docs of ALL passes of the orbit are equal once pad nodes are removed (docs=1), all aligner call traces are
+# equal up to token positions (shape=1), the traced build agrees with the real Formatter and the real Docs' pads are
+# the real aligner's additions (tie=1), M-Aligner reproduces the additions of every pass and M-Pretty every output.
+# What differs is only how the text evolves under repeated formatting (orbit, up to 10 passes):
+KEY = "aligner:source-line-gap-grouping"                                  # fix@2, only space runs differ (sp=1)
+KEY2 = "aligner:source-line-gap-grouping:padding-changes-line-breaks"     # fix@2, the paddings also move breaks
+KEY3 = "aligner:source-line-gap-grouping:oscillation"                     # cyc@k+p: a cycle of period p >= 2
+KEY4 = "aligner:source-line-gap-grouping:late-fixed-point"                # fix@k with k >= 3
+# An independent, second cause (found by this check): `Formatter::modport_declaration` writes `newline_push` +
+# `newline_pop` around an EMPTY modport body — a blank line — and the next pass sees a source-line gap there and adds
+# another one (`interface I {⏎    modport port {}⏎}`: 1 blank line after pass 1, 2 from pass 2 on; the repository's
+# testcases/veryl/69_proto.veryl carries the 2-blank-line fixed point). Verified per case: the blank lines of
+# consecutive passes differ ONLY between `modport <id> {` and `}` (blank=modport).
+KEY_MODPORT = "formatter:modport_declaration:empty-body-blank-line"
+SIG_RE = re.compile(r"^nonidem blank=(0|modport) same=([01]) sp=([01]) orbit=(fix@(\d+)|cyc@(\d+)\+(\d+)) docs=1 shape=1 tie=1$")
+
+
+def keys_of_sig(v):
+    """Keys of the known findings that TOGETHER explain a verdict, or None (blank=other, orbit=none/error,
+    docs/shape/tie=0: a violation)."""
+    m = SIG_RE.match(v)
+    if not m:
+        return None
+    keys = []
+    if m.group(1) == "modport":
+        keys.append(KEY_MODPORT)
+    if m.group(2) == "0":          # the passes differ in more than blank lines: the aligner family
+        if m.group(5) is not None:
+            k = int(m.group(5))
+            if k < 2:
+                return None
+            keys.append((KEY if m.group(3) == "1" else KEY2) if k == 2 else KEY4)
+        else:
+            if int(m.group(7)) < 2:
+                return None
+            keys.append(KEY3)
+    elif m.group(1) == "0":
+        return None                # nothing differs but the texts are different?
+    return keys
+
+
+def key_of_sig(v):
+    """The (last) key of `keys_of_sig`, for messages."""
+    k = keys_of_sig(v)
+    return k[-1] if k else None
+
+
 TIE_OK = "shim=ok pads=ok render=ok"
 DEFAULT_OPT = "4.78.1.a.0.0"
 
@@ -60,22 +100,25 @@ def process(ctx, res, label, budget):
             if i != o:
                 _, cid, opt, hx = op.split(" ")
                 src = unhex(hx)
-                if i in KEYS and pending_align_ok and listed(ctx, KEYS[i]):
+                ks = keys_of_sig(i)
+                if ks and pending_align_ok and all(listed(ctx, k) for k in ks):
                     nonidem["known"] += 1
-                    nonidem[KEYS[i]] = nonidem.get(KEYS[i], 0) + 1
-                    ctx.violation("", "", key=KEYS[i], kind="impl!=oracle")
+                    for k in ks:
+                        nonidem[k] = nonidem.get(k, 0) + 1
+                        ctx.violation("", "", key=k, kind="impl!=oracle")
                 else:
                     nonidem["other"] += 1
                     if budget[1] > 0:
                         budget[1] -= 1
                         body = {"kind": "impl!=oracle", "domain": "fmt", "ops": [op], "impl": i, "oracle": o,
                                 "format_options": opt, "source_text": src, "seed": ctx.seed,
-                                "signature_of_finding_16_verified": i in KEYS and pending_align_ok,
+                                "signature_of_finding_16_verified": bool(key_of_sig(i)) and pending_align_ok,
                                 "model_reproduced_both_paddings": pending_align_ok,
                                 "replay": f"{HX} fmt --replay <file with the op> --out DIR"}
                         ctx.violation(f"fmt[{label}]: formatting is not idempotent ({i}; models reproduced both passes: "
                                       f"{pending_align_ok}); options {opt}, source {len(src or '')} chars", body,
-                                      key=KEYS.get(i) if pending_align_ok else None, kind="impl!=oracle")
+                                      key=next((k for k in (keys_of_sig(i) or []) if not listed(ctx, k)), None) if pending_align_ok else None,
+                                      kind="impl!=oracle")
                     else:
                         ctx.cov["failures"]["impl!=oracle"] += 1
             pending_align_ok = True
@@ -121,12 +164,15 @@ def run(ctx):
         aligns_ok = all(b == c for a, b, c in zip(o, i, m) if kind_of(a) in ("align", "render"))
         ctx.cov["evaluations"] += len(o)
         if idem and idem[0] == "ok":
-            ctx.notes.append(f"known finding {KEY}: its witness {os.path.basename(f)} is idempotent on the current tree "
+            ctx.notes.append(f"recorded C08 witness {os.path.basename(f)} is idempotent on the current tree "
                              "(the entry suppresses nothing for it now)")
-        elif idem and idem[0] in KEYS and aligns_ok:
-            ctx.violation(f"fmt[witness]: finding #16 reproduced on {os.path.basename(f)}: {idem[0]}",
+        elif idem and keys_of_sig(idem[0]) and aligns_ok and all(listed(ctx, k) for k in keys_of_sig(idem[0])):
+            for k in keys_of_sig(idem[0]):
+                ctx.violation("", "", key=k, kind="impl!=oracle")
+        elif idem and key_of_sig(idem[0]) and aligns_ok:
+            ctx.violation(f"fmt[witness]: recorded finding reproduced on {os.path.basename(f)}: {idem[0]}",
                           {"kind": "impl!=oracle", "ops": [line], "impl": idem[0], "oracle": "ok", "source_text": src},
-                          key=KEYS[idem[0]], kind="impl!=oracle")
+                          key=next((k for k in keys_of_sig(idem[0]) if not listed(ctx, k)), None), kind="impl!=oracle")
         else:
             ctx.violation(f"fmt[witness]: unexpected verdict {idem} (aligner model agrees: {aligns_ok}) on {os.path.basename(f)}",
                           {"kind": "impl!=oracle", "ops": [line], "impl": idem, "source_text": src}, kind="impl!=oracle")
